@@ -20,6 +20,9 @@
 (*   spec outcome "wrong": a result different from the reference, all      *)
 (*        stale reads / cache re-uses explained by deviations -> kf        *)
 (*   spec outcome "ok" and the result is not correct -> fail               *)
+(* A call that succeeds although the script has an always-broken step or   *)
+(* assertion there (pseudo attribute) is judged and stepped with the       *)
+(* script continued past that step (Lifecycle!ExecRepaired).               *)
 (* mode "concrete" (fall-back after model drift: exhaustive call sequences *)
 (* of length <= 3): the correct result is ok whatever the specification    *)
 (* predicted; an exception is kf iff it is listed for (class, m) in any    *)
@@ -112,7 +115,9 @@ Begin == /\ l <= Len(Trace) /\ j = 0
 Step == /\ l <= Len(Trace) /\ j >= 1 /\ j <= Len(Ev.steps)
         /\ LET s == Ev.steps[j]
                prev == IF j > 1 THEN Ev.steps[j-1] ELSE s
-           IN /\ Call(s.m)
+               o == Exec(kind, s.m, derived, ckey)
+               repaired == s.out = "ok" /\ o.out = "fails" /\ Pseudo(kind, o.attr)
+           IN /\ IF repaired THEN CallRepaired(s.m) ELSE Call(s.m)
               /\ acc' = Append(acc, Judge(kind, Ev.mode, s, prev, AsState(last')))
         /\ j' = j + 1 /\ UNCHANGED <<l, n>>
 End == /\ l <= Len(Trace) /\ j = Len(Ev.steps) + 1
